@@ -272,7 +272,7 @@ func (w *world) prepareWorld1(ctx sdk.Context, wi int, kind string) {
 	}
 	up := x["id"].(int) // 1, or 2 when the regular upload message was replaced
 	for _, v := range []int{1, 2} {
-		a := fmt.Sprintf(`{"v":%d,"m":%d,"t":"tx","of":%d,"k":1,"corr":"none","st":"ok","n":1}`, v, up, up)
+		a := fmt.Sprintf(`{"v":%d,"m":%d,"t":"tx","of":%d,"k":1,"corr":"none","st":"ok","n":1,"rg":1}`, v, up, up)
 		if res, x := r.step(drv.Step{Act: "Evidence", Args: json.RawMessage(a)}); res != "ok" {
 			panic(fmt.Sprint("world ", wi, ": evidence ", res, x))
 		}
@@ -304,7 +304,7 @@ func (w *world) prepareWorld2(ctx sdk.Context) {
 			panic("world 2: sign " + res)
 		}
 		for _, v := range []int{1, 2} {
-			a := fmt.Sprintf(`{"v":%d,"m":%d,"t":"tx","of":%d,"k":1,"corr":"none","st":"ok","n":1}`, v, m, m)
+			a := fmt.Sprintf(`{"v":%d,"m":%d,"t":"tx","of":%d,"k":1,"corr":"none","st":"ok","n":1,"rg":1}`, v, m, m)
 			if res, x := r.step(drv.Step{Act: "Evidence", Args: json.RawMessage(a)}); res != "ok" {
 				panic(fmt.Sprint("world 2: evidence ", res, x))
 			}
@@ -366,6 +366,7 @@ type args struct {
 	Corr string `json:"corr"`
 	St   string `json:"st"`
 	N    int    `json:"n"`
+	Rg   int    `json:"rg"`
 }
 
 func meta(a sdk.AccAddress) valsettypes.MsgMetadata {
@@ -735,13 +736,16 @@ func (r *run) buildTx(a args) (*ethtypes.Transaction, error) {
 
 var deployedTopic = crypto.Keccak256Hash([]byte("ContractDeployed(address,address,uint256)"))
 
-func (r *run) receipt(tx *ethtypes.Transaction, ok bool) []byte {
-	rc := &ethtypes.Receipt{Type: tx.Type(), Status: ethtypes.ReceiptStatusFailed, CumulativeGasUsed: 21000, Logs: []*ethtypes.Log{}}
+// receipt serialises the receipt a validator reports for tx.  Its components vary independently: the status, and
+// (rg) the rest of the receipt, here the cumulative gas used.  The logs are the same in every variant, so that two
+// receipts of one transaction can differ in the status ALONE.
+func (r *run) receipt(tx *ethtypes.Transaction, ok bool, rg int) []byte {
+	data, err := r.w.abi.Events["ContractDeployed"].Inputs.Pack(common.HexToAddress("0x00000000000000000000000000000000000c411d"), common.HexToAddress(deployerAddr), big.NewInt(7))
+	must(err)
+	rc := &ethtypes.Receipt{Type: tx.Type(), Status: ethtypes.ReceiptStatusFailed, CumulativeGasUsed: uint64(21000 + rg - 1),
+		Logs: []*ethtypes.Log{{Address: common.HexToAddress(compassAddr1), Topics: []common.Hash{deployedTopic}, Data: data}}}
 	if ok {
 		rc.Status = ethtypes.ReceiptStatusSuccessful
-		data, err := r.w.abi.Events["ContractDeployed"].Inputs.Pack(common.HexToAddress("0x00000000000000000000000000000000000c411d"), common.HexToAddress(deployerAddr), big.NewInt(7))
-		must(err)
-		rc.Logs = append(rc.Logs, &ethtypes.Log{Address: common.HexToAddress(compassAddr1), Topics: []common.Hash{deployedTopic}, Data: data})
 	}
 	b, err := rc.MarshalBinary()
 	must(err)
@@ -766,7 +770,9 @@ func (r *run) observe() map[string]any {
 		}
 		evs := []any{}
 		for _, ev := range m.GetEvidence() {
-			evs = append(evs, r.evObs(ev))
+			x := r.evObs(ev)
+			x["ord"] = len(evs) + 1 // position in the stored list = order of first submission
+			evs = append(evs, x)
 		}
 		sort.Slice(evs, func(i, j int) bool { return evs[i].(map[string]any)["v"].(int) < evs[j].(map[string]any)["v"].(int) })
 		enc := []int{}
@@ -870,14 +876,16 @@ func (r *run) observe() map[string]any {
 
 // evObs decodes a stored piece of evidence (never the driver's own book-keeping)
 func (r *run) evObs(ev *ct.Evidence) map[string]any {
-	o := map[string]any{"v": r.valIdxByVal(ev.ValAddress), "t": "other", "did": 0, "hid": 0, "st": "", "eid": ""}
+	o := map[string]any{"v": r.valIdxByVal(ev.ValAddress), "t": "other", "did": 0, "hid": 0, "st": "", "rg": 0, "eid": ""}
+	// identity of the evidence = the bytes the validator submitted (never the code's own BytesToHash: which
+	// evidence counts as "identical" is part of what is being checked)
+	if ev.Proof != nil {
+		s := sha256.Sum256(append([]byte(ev.Proof.TypeUrl+"|"), ev.Proof.Value...))
+		o["eid"] = hex.EncodeToString(s[:8])
+	}
 	var h et.Hashable
 	if err := r.w.e.Cdc.UnpackAny(ev.Proof, &h); err != nil {
 		return o
-	}
-	if b, err := h.BytesToHash(); err == nil {
-		s := sha256.Sum256(b)
-		o["eid"] = hex.EncodeToString(s[:6])
 	}
 	switch p := h.(type) {
 	case *et.TxExecutedProof:
@@ -887,8 +895,11 @@ func (r *run) evObs(ev *ct.Evidence) map[string]any {
 			o["hid"] = r.reg.hid(tx.Hash())
 		}
 		o["st"] = "fail"
-		if rc, err := p.GetReceipt(); err == nil && rc.Status == ethtypes.ReceiptStatusSuccessful {
-			o["st"] = "ok"
+		if rc, err := p.GetReceipt(); err == nil {
+			if rc.Status == ethtypes.ReceiptStatusSuccessful {
+				o["st"] = "ok"
+			}
+			o["rg"] = int(rc.CumulativeGasUsed) - 21000 + 1
 		}
 	case *et.SmartContractExecutionErrorProof:
 		o["t"] = "err"
@@ -1027,7 +1038,7 @@ func (r *run) step(s drv.Step) (res string, extra map[string]any) {
 			}
 			raw, err := tx.MarshalBinary()
 			must(err)
-			p, err := codectypes.NewAnyWithValue(&et.TxExecutedProof{SerializedTX: raw, SerializedReceipt: r.receipt(tx, a.St == "ok")})
+			p, err := codectypes.NewAnyWithValue(&et.TxExecutedProof{SerializedTX: raw, SerializedReceipt: r.receipt(tx, a.St == "ok", a.Rg)})
 			must(err)
 			proof = p
 			txhash = tx.Hash().Bytes()
